@@ -51,7 +51,8 @@ def programs(draw, opts=None):
     opts["exclude"] = set(opts.get("exclude", ())) | _common.open_features("C01")
     _assert_pool_distinct()
     nmods = draw(st.integers(1, opts.get("max_mods", 3)))
-    nfuncs = draw(st.integers(2, opts.get("max_funcs", 7)))
+    force = opts.get("force_motif")
+    nfuncs = draw(st.integers(4 if force else 2, max(4, opts.get("max_funcs", 7))))
     prog = {"pkg": M.PKG, "mods": [f"m{i}" for i in range(nmods)], "vars": [], "funcs": [], "classes": [],
             "ext": {"ev": 1, "ver": 0, "pad": 0}, "layout": {}}
     vpool = _var_pool(opts)
@@ -175,7 +176,8 @@ def programs(draw, opts=None):
         return body, is_unique
 
     motif = None
-    if opts.get("motifs", True) and nfuncs >= 3 and draw(st.integers(0, 3)) == 0:
+    motif2 = []
+    if force != 2 and opts.get("motifs", True) and nfuncs >= 3 and (force == 1 or draw(st.integers(0, 3)) == 0):
         # planted shape: helper H(x=<default>) passes its parameter to a keep; the root calls H with an explicit argument
         prog["funcs"].append({"name": "f0", "mod": 0, "params": [["x", NO]], "ver": 0, "pad": 0, "data": None, "body": [["ext", 0]]})
         hb = [["keep", new_path(), 0, "bare", [["par", "x"]]]]
@@ -185,6 +187,22 @@ def programs(draw, opts=None):
         unique.add(1)
         referenced.add(0)
         motif = 1
+    elif opts.get("motifs", True) and nfuncs >= 4 and (force == 2 or draw(st.integers(0, 5)) == 0):
+        # planted shape: a plain helper with one run-time argument and one parameter left at its default, reached from two
+        # kept functions of which only the first reads a tracked variable
+        v0 = [vi for vi, v in enumerate(prog["vars"]) if v["mod"] == 0]
+        if not v0:
+            prog["vars"].append({"name": "VA", "mod": 0, "val": enc(draw(st.sampled_from(vpool)))})
+            v0 = [len(prog["vars"]) - 1]
+        prog["funcs"].append({"name": "f0", "mod": 0, "params": [["x", NO], ["y", enc(draw(st.sampled_from(LIT_VALUES)))]], "ver": 0, "pad": 0,
+                              "data": None, "body": [["ext", 0]]})
+        shared_call = ["call", 0, "bare", [["loc", 0, "pos"], ["omit"]]]
+        prog["funcs"].append({"name": "f1", "mod": 0, "params": [], "ver": 0, "pad": 0, "data": new_path(),
+                              "body": [["var", draw(st.sampled_from(v0))], [x if not isinstance(x, list) else [list(a) for a in x] for x in shared_call]]})
+        prog["funcs"].append({"name": "f2", "mod": 0, "params": [], "ver": 0, "pad": 0, "data": new_path(),
+                              "body": [["ext", 1], [x if not isinstance(x, list) else [list(a) for a in x] for x in shared_call]]})
+        referenced.add(0)
+        motif2 = [1, 2]
     for i in range(len(prog["funcs"]), nfuncs):
         if class_at == i and not prog["classes"]:
             cbody, cuniq = gen_body(i, mod, [], allow_keep=False, maxlen=2)
@@ -218,6 +236,16 @@ def programs(draw, opts=None):
                         a[1] += 1
             referenced.add(motif)
             is_unique = True
+        if last and motif2:
+            ins = [["call", j, draw(st.sampled_from(M.FORMS)), []] for j in motif2 if j not in referenced]
+            if draw(st.booleans()):
+                ins.reverse()
+            for stt in body:   # local result indices shift
+                for a in (stt[4] if stt[0] == "keep" else (stt[3] if stt[0] == "call" and len(stt) > 3 else [])):
+                    if a[0] == "loc":
+                        a[1] += len(ins)
+            body[0:0] = ins
+            referenced.update(motif2)
         f["body"] = body
         if is_unique and not data:
             unique.add(i)
